@@ -132,8 +132,18 @@ where
     }
 
     fn normalize(&self) -> String {
+        // Comments run from '#' to the end of the line. They must go before the
+        // lines are joined - for single steps as well as for pipelines
+        let uncommented = self
+            .as_ref()
+            .replace('\r', "\n")
+            .lines()
+            .map(|line| line.split('#').next().unwrap_or(""))
+            .collect::<Vec<_>>()
+            .join("\n");
+
         // Tweak everything into canonical form
-        self.as_ref()
+        uncommented
             .trim()
             .trim_matches(':')
             .replace("\n:", "\n")
